@@ -614,7 +614,9 @@ def c_stmts(ss, ind):
             out += c_stmts(s["b"], ind + 1)
             out.append("%s} while (%s);" % (p, c_expr(s["c"])))
         elif k == "for":
-            out.append("%sfor (int %s = %d; %s < %s; %s++) {" % (p, s["v"], s["lo"], s["v"], c_expr(s["hi"]), s["v"]))
+            # the bound is the right operand of `<`: it needs one level more than the relational operators
+            hi = c_expr_min(s["hi"], C_PREC["<"] + 1) if MINPAREN else c_expr(s["hi"])
+            out.append("%sfor (int %s = %d; %s < %s; %s++) {" % (p, s["v"], s["lo"], s["v"], hi, s["v"]))
             out += c_stmts(s["b"], ind + 1)
             out.append("%s}" % p)
         elif k == "seq":
